@@ -1,6 +1,6 @@
 #!/bin/bash
-# usage: tools_benign.sh <dir-with-eN/patch.diff> -- applies each behaviour-preserving edit to a scratch worktree and runs ALL
-# checks against it; any VIOLATION is a false alarm of the machinery
+# usage: tools_benign.sh <dir-with-eN/patch.diff> -- applies each behaviour-preserving edit to a scratch worktree and runs the
+# checks whose packages contain a touched file against it; any VIOLATION is a false alarm of the machinery
 export GOFLAGS=-mod=mod GOPROXY=off GOSUMDB=off GOTOOLCHAIN=local
 wt=/var/tmp/benign-wt-$$; out=/var/tmp/benign-out-$$; mkdir -p $out
 git -C /repo worktree add -q --detach "$wt" HEAD || exit 2
@@ -9,10 +9,17 @@ trap 'git -C /repo worktree remove --force "$wt" >/dev/null 2>&1; rm -rf "$out"'
 for e in "$1"/e*/; do
   ( cd "$wt" && git checkout -q -- . && git apply "$e/patch.diff" ) || { echo "$(basename $e): patch does not apply"; continue; }
   files=$(grep '^+++ b/' "$e/patch.diff" | sed 's#+++ b/##' | tr '\n' ' ')
+  props=$(python3 - $files <<'PY'
+import json,sys,os
+d=json.load(open('/verif/props.json'))
+dirs={'./'+os.path.dirname(f) for f in sys.argv[1:]}
+print(' '.join(sorted(k for k,v in d.items() if dirs & set(v['packages']))))
+PY
+)
   alarms=""
-  for p in C01 C02 C03 C04 C05 C06 C07 C08 C09 C10 C11 C12 C13 C14 C15 C16 C17 C18 C19 C20; do
+  for p in $props; do
     res=$(cd /verif && VERIF_OUT="$out" ./bin/vcgen check $p --repo="$wt" 2>&1)
     if echo "$res" | grep -q "VIOLATION"; then alarms="$alarms $p[$(echo "$res" | grep 'failed:' | head -2 | sed 's/  failed: //' | tr '\n' ';' | cut -c1-230)]"; fi
   done
-  echo "$(basename $e) ($files): ${alarms:-no alarm}"
+  echo "$(basename $e) ($files; checks: $props): ${alarms:-no alarm}"
 done
